@@ -181,7 +181,8 @@ func (runInfo *runInfoStruct) invokeMapExpr(expr *ast.MapExpr) {
 			if runInfo.err != nil {
 				return
 			}
-			key = runInfo.rv
+			// the key is the one read before its value expression runs
+			key = detachValue(runInfo.rv)
 			if !isHashable(key) {
 				runInfo.err = newStringError(expr, "type "+hashableTypeString(key)+" cannot be used as map key")
 				runInfo.rv = nilValue
